@@ -31,7 +31,13 @@ pub fn client_selectable_declaration_map_from_iso_literals<
     let mut out: BTreeMap<(_, SelectableName), _> = BTreeMap::new();
     let mut non_fatal_diagnostics = vec![];
 
-    for (_relative_path, iso_literals_source_id) in db.get_iso_literal_map().tracked().0.iter() {
+    // The map is a HashMap: visit the files in a fixed order, so that which of several definitions
+    // of the same selectable is kept (and which are reported as duplicates) does not vary from
+    // one compile to the next.
+    let iso_literal_map = db.get_iso_literal_map();
+    let mut iso_literal_sources = iso_literal_map.tracked().0.iter().collect::<Vec<_>>();
+    iso_literal_sources.sort_by_key(|(relative_path, _)| **relative_path);
+    for (_relative_path, iso_literals_source_id) in iso_literal_sources {
         for extraction in parse_iso_literal_in_source(db, *iso_literals_source_id).to_owned() {
             match extraction {
                 Ok((extraction_result, _)) => match extraction_result {
